@@ -78,7 +78,9 @@ struct Names {
 
 fn names() -> Names {
     let api = MockApi::default();
-    Names { creators: vec![api.addr_make("u").into_string(), api.addr_make("v").into_string()], default_creator: api.addr_make("creator").into_string() }
+    // the third creator is a plain name no address codec accepts (an unsalted instantiation needs
+    // nothing from the creator but its text)
+    Names { creators: vec![api.addr_make("u").into_string(), api.addr_make("v").into_string(), "owner".to_string()], default_creator: api.addr_make("creator").into_string() }
 }
 
 fn salts() -> Vec<Vec<u8>> {
@@ -505,6 +507,7 @@ pub fn alphabet(tier: Tier) -> Vec<ROp> {
             }
         }
         v.push(ROp::Inst { code: *code, creator: 0, variant: 0, ok: false });
+        v.push(ROp::Inst { code: *code, creator: 2, variant: 0, ok: true });
         for creator in 0..2u8 {
             for salt in 0..3u8 {
                 if tier == Tier::Quick && salt == 2 && creator == 1 {
